@@ -26,20 +26,27 @@ pub struct Stamp {
     /// 0, 3 or 6 fractional digits
     pub frac_digits: u8,
     pub micros: u32,
-    /// "Z" or "+00:00"
+    /// "Z" or a numeric offset
     pub zulu: bool,
+    /// with `zulu == false`: the numeric offset in minutes (0 = "+00:00"); the clock reading is shifted so that the
+    /// instant stays the same
+    #[serde(default)]
+    pub offset_min: i16,
 }
 
 impl Stamp {
     pub fn text(&self) -> String {
         let dt = DateTime::<Utc>::from_timestamp(self.secs, 0).expect("valid seconds");
-        let base = dt.format("%Y-%m-%dT%H:%M:%S").to_string();
+        let off = if self.zulu { 0 } else { (self.offset_min as i32).clamp(-14 * 60, 14 * 60) };
+        let tz = chrono::FixedOffset::east_opt(off * 60).expect("valid offset");
+        let base = dt.with_timezone(&tz).format("%Y-%m-%dT%H:%M:%S").to_string();
         let frac = match self.frac_digits {
             3 => format!(".{:03}", self.micros / 1000),
             6 => format!(".{:06}", self.micros),
             _ => String::new(),
         };
-        format!("{}{}{}", base, frac, if self.zulu { "Z" } else { "+00:00" })
+        let zone = if self.zulu { "Z".to_string() } else { format!("{}{:02}:{:02}", if off < 0 { '-' } else { '+' }, off.abs() / 60, off.abs() % 60) };
+        format!("{}{}{}", base, frac, zone)
     }
     pub fn instant(&self) -> DateTime<Utc> {
         let nanos = match self.frac_digits {
@@ -485,7 +492,7 @@ fn realistic_archive_name() -> impl Strategy<Value = String> {
 }
 
 fn stamp() -> impl Strategy<Value = Stamp> {
-    (946_684_800i64..4_102_444_800, prop_oneof![Just(0u8), Just(3u8), Just(6u8)], 0u32..1_000_000, any::<bool>()).prop_map(|(secs, frac_digits, micros, zulu)| Stamp { secs, frac_digits, micros, zulu })
+    (946_684_800i64..4_102_444_800, prop_oneof![Just(0u8), Just(3u8), Just(6u8)], 0u32..1_000_000, any::<bool>(), prop_oneof![3 => Just(0i16), 1 => Just(-300i16), 1 => Just(-360i16), 1 => Just(330i16), 1 => Just(840i16), 1 => Just(-720i16), 1 => -840i16..=840]).prop_map(|(secs, frac_digits, micros, zulu, offset_min)| Stamp { secs, frac_digits, micros, zulu, offset_min })
 }
 
 fn date() -> impl Strategy<Value = (i32, u32, u32)> {
@@ -653,7 +660,7 @@ pub fn run(ctx: &Ctx, rep: &mut Report) {
             day: 29,
             volume: 1,
             names: (0..n).map(|i| format!("OBJ{:04}_V06", i)).collect(),
-            stamps: (0..n).map(|i| Stamp { secs: 1_700_000_000 + i as i64, frac_digits: 3, micros: 1000 * (i as u32 % 1000), zulu: true }).collect(),
+            stamps: (0..n).map(|i| Stamp { secs: 1_700_000_000 + i as i64, frac_digits: 3, micros: 1000 * (i as u32 % 1000), zulu: true, offset_min: 0 }).collect(),
             sizes: (0..n).map(|i| i as u64).collect(),
             decoys_before: vec![],
             decoys_after: vec![],
